@@ -35,7 +35,7 @@ inductive Action (H : Type) where
   | sendheaders
   | disconnect
   | panic
-deriving Repr
+deriving Repr, DecidableEq
 
 variable {H : Type} [DecidableEq H]
 
